@@ -499,20 +499,11 @@ Definition arg_fields (d : funcdecl) : list field :=
 
 Definition field_types (f : field) : list bytes := repeat (fst (field_to_type (f_type f))) (mult f).
 
-Lemma extract_ok_iff : forall d, is_ok (extract_arguments_type d) = recv_wf d.
+(* a receiver list without exactly one field: nothing (commit 4cb43b4; it was the explicit panic) *)
+Lemma extract_bad_receiver : forall d, recv_wf d = false -> extract_arguments_type d = ([], false).
 Proof.
   intros d. unfold extract_arguments_type, recv_fields, recv_wf.
-  destruct (fd_recv d) as [[|r [|r' l]]|]; reflexivity.
-Qed.
-
-Lemma extract_panics_iff : forall d,
-  (exists m, extract_arguments_type d = Panic m) <-> exists l, fd_recv d = Some l /\ List.length l <> 1%nat.
-Proof.
-  intros d. unfold extract_arguments_type, recv_fields. split.
-  - intros [m H]. destruct (fd_recv d) as [[|r [|r' l]]|]; simpl in H; try discriminate.
-    + exists []. split; [reflexivity|simpl; lia].
-    + exists (r :: r' :: l). split; [reflexivity|simpl; lia].
-  - intros [l [H Hl]]. rewrite H. destruct l as [|r [|r' l]]; simpl in *; try lia; eexists; reflexivity.
+  destruct (fd_recv d) as [[|r [|r' l]]|]; try discriminate; reflexivity.
 Qed.
 
 Lemma last_opt_cons_some : forall {A} (g : A) fs, exists x, last_opt (g :: fs) = Some x.
@@ -538,21 +529,21 @@ Proof.
 Qed.
 
 Lemma field_to_type_ellipsis : forall t, snd (field_to_type t) = is_ellipsis t.
-Proof. intros t. destruct t as [| | |[l|] e| | | | | | |]; reflexivity. Qed.
+Proof. intros t. destruct t as [| | |[l|] e| | | | | | | |]; reflexivity. Qed.
 
 Lemma extract_spec : forall d,
   recv_wf d = true ->
   extract_arguments_type d =
-  Ok (flat_map field_types (arg_fields d),
-      match last_opt (arg_fields d) with Some f => is_ellipsis (f_type f) | None => false end).
+  (flat_map field_types (arg_fields d),
+   match last_opt (arg_fields d) with Some f => is_ellipsis (f_type f) | None => false end).
 Proof.
   intros d H. unfold extract_arguments_type, recv_fields, arg_fields, recv_wf in *.
-  assert (G : forall fs, @Ok (list bytes * bool) (args_loop fs [] false) =
-                         Ok (flat_map field_types fs,
-                             match last_opt fs with Some f => is_ellipsis (f_type f) | None => false end)).
-  { intros fs. rewrite args_loop_spec. simpl app. f_equal. f_equal.
+  assert (G : forall fs, args_loop fs [] false =
+                         (flat_map field_types fs,
+                          match last_opt fs with Some f => is_ellipsis (f_type f) | None => false end)).
+  { intros fs. rewrite args_loop_spec. simpl app. f_equal.
     destruct (last_opt fs); [apply field_to_type_ellipsis|reflexivity]. }
-  destruct (fd_recv d) as [[|r [|r' l]]|]; try discriminate; simpl bind; apply G.
+  destruct (fd_recv d) as [[|r [|r' l]]|]; try discriminate; apply G.
 Qed.
 
 Lemma mult_pos : forall f, (1 <= mult f)%nat.
@@ -574,7 +565,8 @@ Proof.
 Qed.
 
 Lemma types_shape : forall d types ell,
-  extract_arguments_type d = Ok (types, ell) ->
+  recv_wf d = true ->
+  extract_arguments_type d = (types, ell) ->
   types = flat_map field_types (arg_fields d) /\
   List.length types = list_sum (map mult (arg_fields d)) /\
   ell = match last_opt (arg_fields d) with Some f => is_ellipsis (f_type f) | None => false end /\
@@ -582,9 +574,7 @@ Lemma types_shape : forall d types ell,
   (ell = true -> types <> []) /\
   Forall (fun t => exists f, In f (arg_fields d) /\ t = fst (field_to_type (f_type f))) types.
 Proof.
-  intros d types ell H.
-  assert (Hwf : recv_wf d = true).
-  { rewrite <- extract_ok_iff. rewrite H. reflexivity. }
+  intros d types ell Hwf H.
   rewrite (extract_spec d Hwf) in H. inversion H as [[Ht He]]. clear H.
   split; [reflexivity|]. split; [apply flat_map_field_types_length|]. split; [reflexivity|].
   split.
@@ -598,6 +588,15 @@ Proof.
     unfold field_types in Hnil. pose proof (mult_pos f). destruct (mult f); [lia|discriminate]. }
   { apply Forall_forall. intros t Hin. apply in_flat_map in Hin. destruct Hin as [f [Hf Ht']].
     exists f. split; [assumption|]. unfold field_types in Ht'. apply repeat_spec in Ht'. assumption. }
+Qed.
+
+(* a variadic flag comes with at least one type, whatever the declaration *)
+Lemma extract_variadic_nonempty : forall d types ell,
+  extract_arguments_type d = (types, ell) -> ell = true -> types <> [].
+Proof.
+  intros d types ell H. destruct (recv_wf d) eqn:Hwf.
+  - destruct (types_shape d types ell Hwf H) as [_ [_ [_ [_ [Hne _]]]]]. exact Hne.
+  - rewrite (extract_bad_receiver d Hwf) in H. inversion H; subst. discriminate.
 Qed.
 
 (* ------------------------------------------------------------------ *)
@@ -641,7 +640,7 @@ Qed.
 Lemma extract_of_params : forall d ps,
   (fd_recv d = None \/ exists r, fd_recv d = Some [r] /\ is_star (f_type r) = false) ->
   params_match (fd_params d) ps ->
-  extract_arguments_type d = Ok (map Abi.type_name ps, false).
+  extract_arguments_type d = (map Abi.type_name ps, false).
 Proof.
   intros d ps Hr Hm.
   assert (Hwf : recv_wf d = true).
@@ -656,12 +655,11 @@ Lemma types_compose : forall f32 f64 isptr d ps,
   (fd_recv d = None \/ exists r, fd_recv d = Some [r] /\ is_star (f_type r) = false) ->
   params_match (fd_params d) ps ->
   forallb wf_param ps = true ->
-  exists types ell,
-    extract_arguments_type d = Ok (types, ell) /\
-    augment_call f32 f64 types ell (args_of_words isptr (flat_map encode ps)) = Ok (map (show f32 f64) ps).
+  augment_call f32 f64 (fst (extract_arguments_type d)) (snd (extract_arguments_type d))
+               (args_of_words isptr (flat_map encode ps)) = Ok (map (show f32 f64) ps).
 Proof.
   intros f32 f64 isptr d ps Hr Hm Hwf.
-  exists (map Abi.type_name ps), false. split; [apply extract_of_params; assumption|].
+  rewrite (extract_of_params d ps Hr Hm). simpl fst. simpl snd.
   apply AugmentProofs.truthful. assumption.
 Qed.
 
@@ -669,14 +667,13 @@ Lemma types_compose_ptr_receiver : forall f32 f64 isptr d n x recv ps,
   fd_recv d = Some [mkField n (TStar x)] -> (n <= 1)%nat ->
   params_match (fd_params d) ps ->
   word_ok recv = true -> forallb wf_param ps = true ->
-  exists types ell,
-    extract_arguments_type d = Ok (types, ell) /\
-    augment_call f32 f64 types ell (args_of_words isptr (recv :: flat_map encode ps)) =
-    Ok (((s2b "*" ++ Source.type_name x) ++ s2b "(" ++ hex0x recv ++ s2b ")") :: map (show f32 f64) ps).
+  augment_call f32 f64 (fst (extract_arguments_type d)) (snd (extract_arguments_type d))
+               (args_of_words isptr (recv :: flat_map encode ps)) =
+  Ok (((s2b "*" ++ Source.type_name x) ++ s2b "(" ++ hex0x recv ++ s2b ")") :: map (show f32 f64) ps).
 Proof.
   intros f32 f64 isptr d n x recv ps Hr Hn Hm Hrecv Hwf.
-  exists ((s2b "*" ++ Source.type_name x) :: map Abi.type_name ps), false. split.
-  - assert (Hw : recv_wf d = true) by (unfold recv_wf; rewrite Hr; reflexivity).
+  assert (E : extract_arguments_type d = ((s2b "*" ++ Source.type_name x) :: map Abi.type_name ps, false)).
+  { assert (Hw : recv_wf d = true) by (unfold recv_wf; rewrite Hr; reflexivity).
     rewrite (extract_spec d Hw).
     assert (Hf : arg_fields d = mkField n (TStar x) :: fd_params d).
     { unfold arg_fields. rewrite Hr. reflexivity. }
@@ -689,57 +686,305 @@ Proof.
     rewrite Hl.
     assert (Hone : field_types (mkField n (TStar x)) = [s2b "*" ++ Source.type_name x]).
     { unfold field_types, mult. simpl. destruct n as [|[|n']]; [reflexivity|reflexivity|lia]. }
-    rewrite Hone. reflexivity.
-  - apply AugmentProofs.truthful_ptr_receiver; assumption.
+    rewrite Hone. reflexivity. }
+  rewrite E. simpl fst. simpl snd.
+  apply AugmentProofs.truthful_ptr_receiver; assumption.
+Qed.
+
+(* extract then augment never panics, whatever the declaration *)
+Lemma extract_then_augment_total : forall f32 f64 d a,
+  exists r, augment_call f32 f64 (fst (extract_arguments_type d)) (snd (extract_arguments_type d)) a = Ok r.
+Proof.
+  intros f32 f64 d a. apply AugmentProofs.total.
+  destruct (extract_arguments_type d) as [types ell] eqn:E. simpl.
+  apply (extract_variadic_nonempty d types ell E).
 Qed.
 
 (* ------------------------------------------------------------------ *)
-(* source_types: totality and the over-line error *)
-Lemma source_total : forall offsets root l,
-  Forall (fun x => recv_wf (snd x) = true) (funcdecls root) ->
-  exists r, source_types offsets root l = Ok r.
+(* matchFuncDecl *)
+Lemma beq_true : forall a b, beq a b = true -> a = b.
+Proof. intros a b H. apply beq_eq. assumption. Qed.
+
+(* recv[2:len(recv)-1] is evaluated only when the bounds are in range *)
+Lemma peel_in_range : forall recv,
+  has_prefix recv OPEN_STAR = true -> has_suffix recv CLOSE = true -> (2 <= List.length recv - 1)%nat.
 Proof.
-  intros offsets root l H. unfold source_types, get_func_ast.
-  destruct (nth_error offsets l) as [off|]; [|eexists; reflexivity].
-  destruct (get_func_ast_at off root) as [| |p d] eqn:E; try (eexists; reflexivity).
-  apply selected_is_member in E. destruct E as [Hin _].
-  rewrite Forall_forall in H. specialize (H _ Hin). simpl in H.
-  rewrite (extract_spec d H). simpl. eexists; reflexivity.
+  intros recv Hp Hs. destruct recv as [|a [|b [|c rest]]].
+  - simpl in Hp. discriminate.
+  - simpl in Hp. rewrite ?andb_false_r in Hp. discriminate.
+  - simpl in Hp. rewrite ?andb_true_r in Hp. apply andb_true_iff in Hp. destruct Hp as [Ha Hb].
+    apply N.eqb_eq in Ha. apply N.eqb_eq in Hb. subst a b. vm_compute in Hs. discriminate.
+  - simpl. lia.
 Qed.
 
-Lemma source_panic_only_bad_receiver : forall offsets root l m,
-  source_types offsets root l = Panic m ->
-  exists p d recv, In (p, d) (funcdecls root) /\ fd_recv d = Some recv /\ List.length recv <> 1%nat.
+Lemma skipn_last_one : forall (s : bytes) x,
+  (1 <= List.length s)%nat -> skipn (List.length s - 1) s = [x] -> s = firstn (List.length s - 1) s ++ [x].
+Proof. intros s x _ H. rewrite <- H. symmetry. apply firstn_skipn. Qed.
+
+Lemma peel_spec : forall recv,
+  has_prefix recv OPEN_STAR = true -> has_suffix recv CLOSE = true ->
+  recv = OPEN_STAR ++ peel_ptr recv ++ CLOSE.
 Proof.
-  intros offsets root l m H. unfold source_types, get_func_ast in H.
-  destruct (nth_error offsets l) as [off|]; [|discriminate].
-  destruct (get_func_ast_at off root) as [| |p d] eqn:E; try discriminate.
-  apply selected_is_member in E. destruct E as [Hin _].
-  destruct (extract_arguments_type d) as [[ts e]|m'] eqn:Ex; [discriminate|].
-  destruct (proj1 (extract_panics_iff d) (ex_intro _ m' Ex)) as [recv [Hr Hl]].
-  exists p, d, recv. auto.
+  intros recv Hp Hs. pose proof (peel_in_range recv Hp Hs) as Hr.
+  destruct recv as [|a [|b rest]]; simpl in Hp; rewrite ?andb_false_r in Hp; try discriminate.
+  apply andb_true_iff in Hp. destruct Hp as [Ha Hb]. apply andb_true_iff in Hb. destruct Hb as [Hb _].
+  apply N.eqb_eq in Ha. apply N.eqb_eq in Hb. subst a b.
+  unfold has_suffix in Hs. apply andb_true_iff in Hs. destruct Hs as [_ Hs]. apply beq_true in Hs.
+  simpl List.length in *. unfold peel_ptr, OPEN_STAR, CLOSE in *. simpl List.length.
+  assert (Hn : (1 <= List.length rest)%nat) by lia.
+  replace (S (S (List.length rest)) - 1)%nat with (S (S (List.length rest - 1))) in Hs by lia.
+  simpl skipn in Hs.
+  replace (S (S (List.length rest)) - 3)%nat with (List.length rest - 1)%nat by lia.
+  simpl skipn. simpl app. f_equal. f_equal.
+  apply skipn_last_one; assumption.
 Qed.
 
+Lemma has_suffix_app1 : forall (a p : bytes), has_suffix (a ++ p) p = true.
+Proof.
+  intros a p. unfold has_suffix. rewrite app_length. apply andb_true_iff. split.
+  - apply Nat.leb_le. lia.
+  - replace (List.length a + List.length p - List.length p)%nat with (List.length a) by lia.
+    rewrite skipn_app, skipn_all, Nat.sub_diag. simpl. apply beq_refl.
+Qed.
+
+Lemma peel_of_wrapped : forall base, peel_ptr (OPEN_STAR ++ base ++ CLOSE) = base.
+Proof.
+  intros base. unfold peel_ptr, OPEN_STAR, CLOSE. simpl. rewrite app_length. simpl.
+  replace (List.length base + 1 - 1)%nat with (List.length base) by lia.
+  rewrite firstn_app, firstn_all, Nat.sub_diag. simpl. apply app_nil_r.
+Qed.
+
+(* the base identifier of a receiver type: T, *T, T[..], *T[..] *)
+Definition recv_base (t : texpr) : option bytes :=
+  match unindex (match t with TStar x => x | _ => t end) with
+  | TIdent nm => Some nm
+  | _ => None
+  end.
+
+(* the receiver as a traceback prints it; Some [] for a plain function *)
+Definition recv_text (d : funcdecl) : option bytes :=
+  match fd_recv d with
+  | None => Some []
+  | Some [r] =>
+      match recv_base (f_type r) with
+      | Some b => Some (if is_star (f_type r) then OPEN_STAR ++ b ++ CLOSE else b)
+      | None => None
+      end
+  | Some _ => None
+  end.
+
+Lemma match_spec : forall d f,
+  match_func_decl d f = true ->
+  fd_name d = last_component f /\ recv_wf d = true /\ recv_text d = Some (recv_part f).
+Proof.
+  intros d f H. unfold match_func_decl, last_component, recv_part, recv_text, recv_wf in *.
+  destruct (split_last_dot (strip_tparams f)) as [recv f1]. simpl fst. simpl snd.
+  destruct (beq f1 (fd_name d)) eqn:En; simpl in H; [|discriminate].
+  apply beq_true in En. split; [congruence|].
+  destruct (fd_recv d) as [[|r [|r' l]]|]; try discriminate.
+  - split; [reflexivity|]. unfold recv_base.
+    destruct (f_type r) as [nm| |x|? ?|?| | |? ?|?|?|x|] eqn:Et; simpl in H; try discriminate.
+    + apply beq_true in H. subst. reflexivity.
+    + (* pointer receiver *)
+      destruct (has_prefix recv OPEN_STAR && has_suffix recv CLOSE) eqn:Eb; [|discriminate].
+      apply andb_true_iff in Eb. destruct Eb as [Hp Hs].
+      destruct (unindex x) as [nm| | | | | | | | | | |] eqn:Eu; try discriminate.
+      apply beq_true in H. subst nm. simpl. f_equal. symmetry. apply peel_spec; assumption.
+    + destruct x as [nm| | | | | | | | | | |]; simpl in H; try discriminate.
+      apply beq_true in H. subst. reflexivity.
+  - split; [reflexivity|]. apply beq_true in H. subst. reflexivity.
+Qed.
+
+Lemma match_name : forall d f, match_func_decl d f = true -> fd_name d = last_component f.
+Proof. intros d f H. apply (match_spec d f H). Qed.
+
+(* two declarations that both match a frame name have the same name and are printed with the same receiver *)
+Lemma match_injective : forall d1 d2 f,
+  match_func_decl d1 f = true -> match_func_decl d2 f = true ->
+  fd_name d1 = fd_name d2 /\ recv_text d1 = recv_text d2.
+Proof.
+  intros d1 d2 f H1 H2. destruct (match_spec _ _ H1) as [N1 [_ R1]]. destruct (match_spec _ _ H2) as [N2 [_ R2]].
+  split; congruence.
+Qed.
+
+Lemma split_last_dot_app : forall a b, ~ In DOT b -> split_last_dot (a ++ DOT :: b) = (a, b).
+Proof.
+  intros a b Hb. unfold split_last_dot.
+  assert (E : last_index_byte (a ++ DOT :: b) DOT = Some (List.length a)).
+  { clear - Hb. induction a as [|x a IH]; simpl.
+    - assert (Hn : last_index_byte b DOT = None).
+      { clear - Hb. induction b as [|y b IH]; [reflexivity|]. simpl.
+        rewrite IH by (intros H; apply Hb; right; assumption).
+        destruct (N.eqb y DOT) eqn:E; [|reflexivity]. apply N.eqb_eq in E. exfalso. apply Hb. left. assumption. }
+      rewrite Hn. reflexivity.
+    - rewrite IH. reflexivity. }
+  rewrite E. f_equal.
+  - rewrite firstn_app, firstn_all, Nat.sub_diag. simpl. apply app_nil_r.
+  - change (S (List.length a)) with (1 + List.length a)%nat.
+    replace (1 + List.length a)%nat with (List.length a + 1)%nat by lia.
+    rewrite skipn_app. rewrite skipn_all2 by lia.
+    replace (List.length a + 1 - List.length a)%nat with 1%nat by lia. reflexivity.
+Qed.
+
+Lemma split_last_dot_none : forall b, ~ In DOT b -> split_last_dot b = ([], b).
+Proof.
+  intros b Hb. unfold split_last_dot.
+  assert (Hn : last_index_byte b DOT = None).
+  { induction b as [|y b IH]; [reflexivity|]. simpl.
+    rewrite IH by (intros H; apply Hb; right; assumption).
+    destruct (N.eqb y DOT) eqn:E; [|reflexivity]. apply N.eqb_eq in E. exfalso. apply Hb. left. assumption. }
+  rewrite Hn. reflexivity.
+Qed.
+
+(* the name a traceback prints for a declaration matches it (legitimate augmentation is kept) *)
+Lemma match_complete_func : forall d f,
+  fd_recv d = None -> strip_tparams f = fd_name d -> ~ In DOT (fd_name d) -> match_func_decl d f = true.
+Proof.
+  intros d f Hr Hs Hd. unfold match_func_decl. rewrite Hs, (split_last_dot_none _ Hd).
+  rewrite beq_refl. simpl. rewrite Hr. reflexivity.
+Qed.
+
+Lemma match_complete_method : forall d f r b,
+  fd_recv d = Some [r] -> recv_base (f_type r) = Some b ->
+  strip_tparams f = (if is_star (f_type r) then OPEN_STAR ++ b ++ CLOSE else b) ++ DOT :: fd_name d ->
+  ~ In DOT (fd_name d) -> match_func_decl d f = true.
+Proof.
+  intros d f r b Hr Hb Hs Hd. unfold match_func_decl. rewrite Hs, (split_last_dot_app _ _ Hd).
+  rewrite beq_refl. simpl negb. cbv iota. rewrite Hr. unfold recv_base in Hb.
+  destruct (f_type r) as [nm| |x|? ?|?| | |? ?|?|?|x|] eqn:Et; simpl in Hb; try discriminate.
+  - inversion Hb; subst. simpl. apply beq_refl.
+  - simpl is_star. cbv iota.
+    assert (Hp : has_prefix (OPEN_STAR ++ b ++ CLOSE) OPEN_STAR = true).
+    { unfold OPEN_STAR. simpl. apply AugmentProofs.has_prefix_nil. }
+    assert (Hsf : has_suffix (OPEN_STAR ++ b ++ CLOSE) CLOSE = true).
+    { rewrite app_assoc. apply has_suffix_app1. }
+    rewrite Hp, Hsf. simpl andb. cbv iota.
+    destruct (unindex x) as [nm| | | | | | | | | | |]; try discriminate.
+    inversion Hb; subst. rewrite peel_of_wrapped. apply beq_refl.
+  - destruct x as [nm| | | | | | | | | | |]; simpl in Hb; try discriminate.
+    inversion Hb; subst. simpl. apply beq_refl.
+Qed.
+
+(* ------------------------------------------------------------------ *)
+(* source_types: totality, the over-line error, what a result means *)
 Lemma get_func_ast_at_not_err : forall off root, get_func_ast_at off root <> AstErr.
 Proof. intros off root. unfold get_func_ast_at. destruct (w_d (visit off root w0)) as [[? ?]|]; discriminate. Qed.
 
-Lemma source_overline_iff : forall offsets root l,
-  source_types offsets root l = Ok SrcErr <-> (List.length offsets <= l)%nat.
+Lemma source_total : forall offsets root l f, exists r, source_types offsets root l f = Ok r.
 Proof.
-  intros offsets root l. unfold source_types, get_func_ast. split.
+  intros offsets root l f. unfold source_types.
+  destruct (get_func_ast offsets root l f) as [| |p d]; try (eexists; reflexivity).
+  destruct (extract_arguments_type d). eexists; reflexivity.
+Qed.
+
+Lemma source_overline_iff : forall offsets root l f,
+  source_types offsets root l f = Ok SrcErr <-> (List.length offsets <= l)%nat.
+Proof.
+  intros offsets root l f. unfold source_types, get_func_ast. split.
   - intros H. apply nth_error_None.
     destruct (nth_error offsets l) as [off|]; [|reflexivity]. exfalso.
-    destruct (get_func_ast_at off root) as [| |p d] eqn:E; try discriminate.
+    destruct (get_func_ast_at off root) as [| |p d] eqn:E.
     + exact (get_func_ast_at_not_err _ _ E).
-    + destruct (extract_arguments_type d) as [[ts e]|m']; discriminate.
+    + discriminate.
+    + destruct (match_func_decl d f); [|discriminate].
+      destruct (extract_arguments_type d); discriminate.
   - intros H. apply nth_error_None in H. rewrite H. reflexivity.
 Qed.
 
-(* extract then augment never panics *)
-Lemma extract_then_augment_total : forall f32 f64 d types ell a,
-  extract_arguments_type d = Ok (types, ell) ->
-  exists r, augment_call f32 f64 types ell a = Ok r.
+(* the filtered selection in terms of the raw one *)
+Lemma get_func_ast_found : forall offsets root l f p d,
+  get_func_ast offsets root l f = AstFound p d ->
+  exists off, nth_error offsets l = Some off /\ get_func_ast_at off root = AstFound p d /\ match_func_decl d f = true.
 Proof.
-  intros f32 f64 d types ell a H. apply AugmentProofs.total.
-  destruct (types_shape d types ell H) as [_ [_ [_ [_ [Hne _]]]]]. exact Hne.
+  intros offsets root l f p d H. unfold get_func_ast in H.
+  destruct (nth_error offsets l) as [off|]; [|discriminate]. exists off. split; [reflexivity|].
+  destruct (get_func_ast_at off root) as [| |q e]; try discriminate.
+  destruct (match_func_decl e f) eqn:M; [|discriminate]. inversion H; subst. auto.
+Qed.
+
+Lemma selected_matches_frame : forall offsets root l f p nm ts ell,
+  source_types offsets root l f = Ok (SrcTypes p nm ts ell) ->
+  exists d, In (p, d) (funcdecls root) /\ match_func_decl d f = true /\
+            nm = fd_name d /\ nm = last_component f /\ recv_wf d = true /\
+            recv_text d = Some (recv_part f) /\ (ts, ell) = extract_arguments_type d.
+Proof.
+  intros offsets root l f p nm ts ell H. unfold source_types in H.
+  destruct (get_func_ast offsets root l f) as [| |q d] eqn:E; try discriminate.
+  destruct (extract_arguments_type d) as [ts' ell'] eqn:Ex. inversion H; subst. clear H.
+  destruct (get_func_ast_found _ _ _ _ _ _ E) as [off [_ [Hsel Hm]]].
+  destruct (selected_is_member _ _ _ _ Hsel) as [Hin _].
+  destruct (match_spec _ _ Hm) as [Hn [Hw Hr]].
+  exists d. repeat split; auto.
+Qed.
+
+(* a frame whose function name no declaration of the file has is never augmented:
+   function literals "x.funcN", wrappers "T.m-fm", hostile names *)
+Lemma wrong_name_unaugmented : forall offsets root l f,
+  (forall p d, In (p, d) (funcdecls root) -> fd_name d <> last_component f) ->
+  source_types offsets root l f = Ok SrcNone \/ source_types offsets root l f = Ok SrcErr.
+Proof.
+  intros offsets root l f H.
+  destruct (source_total offsets root l f) as [[| |p nm ts ell] Hr]; auto.
+  exfalso. destruct (selected_matches_frame _ _ _ _ _ _ _ _ Hr) as [d [Hin [_ [Hn [Hl _]]]]].
+  apply (H p d Hin). congruence.
+Qed.
+
+Lemma source_of_raw : forall offsets root l f off,
+  nth_error offsets l = Some off ->
+  source_types offsets root l f =
+  match get_func_ast_at off root with
+  | AstErr => Ok SrcErr
+  | AstNone => Ok SrcNone
+  | AstFound p d =>
+      if match_func_decl d f
+      then Ok (SrcTypes p (fd_name d) (fst (extract_arguments_type d)) (snd (extract_arguments_type d)))
+      else Ok SrcNone
+  end.
+Proof.
+  intros offsets root l f off H. unfold source_types, get_func_ast. rewrite H.
+  destruct (get_func_ast_at off root) as [| |p d]; try reflexivity.
+  destruct (match_func_decl d f); [|reflexivity].
+  destruct (extract_arguments_type d); reflexivity.
+Qed.
+
+(* inside declaration k with k's name: k's types *)
+Lemma select_enclosing_types : forall offsets l f off p0 pre pk fd ch nxt post,
+  nth_error offsets l = Some off ->
+  wf_file (Node p0 KOther (pre ++ Node pk (KFuncDecl fd) ch :: nxt :: post)) = true ->
+  pk < off -> off <= node_pos nxt ->
+  match_func_decl fd f = true ->
+  source_types offsets (Node p0 KOther (pre ++ Node pk (KFuncDecl fd) ch :: nxt :: post)) l f =
+  Ok (SrcTypes pk (fd_name fd) (fst (extract_arguments_type fd)) (snd (extract_arguments_type fd))).
+Proof.
+  intros offsets l f off p0 pre pk fd ch nxt post Hoff Hwf Hlt Hle Hm.
+  rewrite (source_of_raw _ _ _ _ _ Hoff). rewrite select_enclosing by assumption. rewrite Hm. reflexivity.
+Qed.
+
+(* the line of the func keyword of k (a one-line function, the top frame of a
+   stack overflow): the walk finds j, the filter drops it unless the frame names j *)
+Lemma func_keyword_line_unaugmented : forall offsets l f off p0 pre pj fj chj pk fk chk post,
+  nth_error offsets l = Some off ->
+  wf_file (Node p0 KOther (pre ++ Node pj (KFuncDecl fj) chj :: Node pk (KFuncDecl fk) chk :: post)) = true ->
+  pj < off -> off <= pk ->
+  match_func_decl fj f = false ->
+  source_types offsets (Node p0 KOther (pre ++ Node pj (KFuncDecl fj) chj :: Node pk (KFuncDecl fk) chk :: post)) l f =
+  Ok SrcNone.
+Proof.
+  intros offsets l f off p0 pre pj fj chj pk fk chk post Hoff Hwf Hlt Hle Hm.
+  rewrite (source_of_raw _ _ _ _ _ Hoff). rewrite select_enclosing by assumption. rewrite Hm. reflexivity.
+Qed.
+
+Lemma one_line_func_unaugmented : forall offsets l f off p0 pre pj fj chj pk fk chk post,
+  nth_error offsets l = Some off ->
+  wf_file (Node p0 KOther (pre ++ Node pj (KFuncDecl fj) chj :: Node pk (KFuncDecl fk) chk :: post)) = true ->
+  pj < off -> off <= pk ->
+  match_func_decl fk f = true ->
+  (fd_name fj <> fd_name fk \/ recv_text fj <> recv_text fk) ->
+  source_types offsets (Node p0 KOther (pre ++ Node pj (KFuncDecl fj) chj :: Node pk (KFuncDecl fk) chk :: post)) l f =
+  Ok SrcNone.
+Proof.
+  intros offsets l f off p0 pre pj fj chj pk fk chk post Hoff Hwf Hlt Hle Hk Hdiff.
+  apply (func_keyword_line_unaugmented _ _ _ off); try assumption.
+  destruct (match_func_decl fj f) eqn:Hj; [|reflexivity]. exfalso.
+  destruct (match_injective _ _ _ Hj Hk) as [Hn Hr]. destruct Hdiff as [Hd|Hd]; contradiction.
 Qed.
